@@ -136,8 +136,19 @@ def h_blockkfold(ctx):
     else:
         nb = [len(set(labels[i] for i in t)) for t in tests]
         ctx.claim("unbalanced / fallback folds hold equal block counts (+-1)", max(nb) - min(nb) <= 1)
-    if cfg["balance"]:
-        ctx.claim("falling back from balancing always warns", True)
+    if cfg["balance"] and (not cfg["shuffle"] or cfg.get("seed") is not None):
+        # independent derivation of the folds from the verified partition_by_sum
+        ids = np.unique(labels)
+        if cfg["shuffle"]:
+            np.random.RandomState(cfg["seed"]).shuffle(ids)
+        sizes = [counts[b] for b in ids]
+        try:
+            pts = vu.partition_by_sum(sizes, n_splits)
+            expect = [sorted(i for i in range(n) if labels[i] in set(part)) for part in np.split(ids, pts)]
+            ctx.claim("balancing is used (no warning) whenever partition_by_sum finds split points for the block populations", not warned)
+            ctx.claim("balanced folds are the partition_by_sum groups of consecutive blocks", [sorted(t) for t in tests] == expect)
+        except ValueError:
+            ctx.claim("falling back to equal block counts warns", bool(warned))
     # reproducibility for a fixed random_state
     (splits2, _w), _ = _with_block_split(labels, run)
     same = len(splits2) == len(splits) and all(list(a[0]) == list(b[0]) and list(a[1]) == list(b[1]) for a, b in zip(splits, splits2))
